@@ -107,6 +107,27 @@ def roundtrip(acc, m, side, cname):
                       % (b2.hex()[:60], b1.hex()[:60]), cname)
     if b3 != b2:
         acc.violation('C02/%s/purity/encode-decoded-twice' % cname, wit, 'encoding a freshly decoded object twice differs', cname)
+    # the application does what it likes with the lists of a message it decoded (trims, flips, appends): a later
+    # decode of the same bytes gives the same message again
+    touched = False
+    for k, v in list(vars(d).items()):
+        if isinstance(v, list) and v:
+            v[:] = [(not x) if isinstance(x, bool) else x for x in reversed(v)] + [v[0]]
+            touched = True
+        elif isinstance(v, dict) and v:
+            v.clear()
+            touched = True
+    if touched:
+        try:
+            d2 = dec.decode(b1)
+            a2 = norm(bind.to_msg(d2))
+        except Exception as e:   # noqa
+            acc.violation('C02/%s/accumulate/decode-after-caller-edit' % cname, wit, 'second decode raised %r' % e, cname)
+            return
+        if first_diff(a2, a):
+            acc.violation('C02/%s/accumulate/decode-after-caller-edit' % cname, wit,
+                          'after the caller edited the lists of the first decoded message, the same bytes decode with field %s = %s'
+                          % (first_diff(a2, a), str(a2.get(first_diff(a2, a)))[:50]), cname)
 
 
 def histories(acc, m0, bodies, side, cname, depth):
